@@ -27,8 +27,11 @@ def rowOfString (s : List Char) : Row := ⟨fromGapped (s.map isGap), s.filter (
 
 /-- `str(aligned)` = `data.gapped_by_map(map)`: every span shows `data[start:end]` (clamped like any
 slice), every lost span shows gaps -/
-def gapped (r : Row) : List Char :=
-  (absSpans r.map).filterMap fun | none => some '-' | some i => r.data[i]?
+def showCol (data : List Char) : Option Nat → Option Char
+  | none => some '-'
+  | some i => data[i]?
+
+def gapped (r : Row) : List Char := (absSpans r.map).filterMap (showCol r.data)
 
 def pyIdx (a : Option Int) : Option Int := a
 
